@@ -112,12 +112,14 @@ def ls1(model):
 
 # ------------------------------------------------------------------ multi-language parts
 class PairColl:
-    """a collection (dict of lists / list) of [text, positions] pairs of equal length"""
-    def __init__(self, depth):
+    """a collection (dict of lists / list) of [text, positions] pairs of equal length;
+    view = 'values' / 'items' for the corresponding views of a dict of lists"""
+    def __init__(self, depth, view=None):
         self.depth = depth
+        self.view = view
 
     def __eq__(self, o):
-        return isinstance(o, PairColl) and o.depth == self.depth
+        return isinstance(o, PairColl) and o.depth == self.depth and o.view == self.view
 
 
 class MLEval(PairEval):
@@ -136,7 +138,40 @@ class MLEval(PairEval):
                 return PairColl(base.depth - 1) if base.depth > 1 else self.pair()
         return super().ev_Subscript(e, st)
 
+    def ev_Call(self, e, st):
+        f = e.func
+        if isinstance(f, ast.Attribute) and f.attr in ('values', 'items', 'get') \
+                and unparse(f.value) not in ('self',):
+            base = self.ev(f.value, st)
+            if isinstance(base, PairColl) and base.depth == 2 and base.view is None:
+                if f.attr == 'values' and not e.args:
+                    return PairColl(2, 'values')
+                if f.attr == 'items' and not e.args:
+                    return PairColl(2, 'items')
+                if f.attr == 'get' and e.args:
+                    # the default has to be an empty collection to keep the shape
+                    if len(e.args) == 1 or (isinstance(e.args[1], (ast.List, ast.Tuple)) and not e.args[1].elts):
+                        return PairColl(1)
+        return super().ev_Call(e, st)
+
+    def store(self, target, val, st):
+        # part[:] = (text, positions): the pair object is replaced as a whole
+        if isinstance(target, ast.Subscript) and isinstance(target.slice, ast.Slice) and target.slice.lower is None \
+                and target.slice.upper is None and isinstance(target.value, ast.Name) \
+                and isinstance(val, Tup) and len(val.items) == 2:
+            b = target.value.id
+            for k in [k for k in st.vars if k.startswith(b + '[')]:
+                del st.vars[k]
+            st.vars[b + '[0]'] = val.items[0]
+            st.vars[b + '[1]'] = val.items[1]
+            return
+        return super().store(target, val, st)
+
     def for_item(self, s, itv, st):
+        if isinstance(itv, PairColl) and itv.view == 'values':
+            return PairColl(1)
+        if isinstance(itv, PairColl) and itv.view == 'items':
+            return Tup([Obj(fresh('key')), PairColl(1)])
         if isinstance(itv, PairColl):
             if itv.depth >= 2 and isinstance(s.target, ast.Name) and itv.depth == 2:
                 return Obj(fresh('key'))       # iterating a dict yields keys
@@ -347,7 +382,8 @@ def ls1w(model):
         if ok_iter and len(ws) == 1 and len(uncond) == 1 and not any(
                 isinstance(x, (ast.Continue, ast.Break)) for x in ast.walk(lp)):
             arg = ws[0].args[0]
-            nl = any(isinstance(x, ast.Constant) and x.value == '\n' for x in ast.walk(arg))
+            nl = any(isinstance(x, ast.Constant) and isinstance(x.value, str) and x.value.endswith('\n')
+                     and x.value.count('\n') == 1 for x in ast.walk(arg))
             if nl:
                 r.ok(lp, 'one unconditional write of one line per position entry', nontrivial=True)
             else:
